@@ -12,11 +12,21 @@ func (h *hist) pick(n int) int { return h.rng.IntN(n) }
 
 func (h *hist) chance(pct int) bool { return h.rng.IntN(100) < pct }
 
+// noFaultsArmed tells whether no leaf has an injected fault pending.
+func (h *hist) noFaultsArmed() bool {
+	for _, l := range h.w.allLeaves() {
+		if l.failIO.Load() > 0 || l.failOpen.Load() > 0 {
+			return false
+		}
+	}
+	return !h.concurrent
+}
+
 // pickRange picks a byte range for LOCK/LOCKU/LOCKT; now and then the
 // malformed one.
 func (h *hist) pickRange() int {
 	if h.chance(5) {
-		return invalidRange
+		return invalidRange + h.pick(len(lockRanges)-invalidRange)
 	}
 	return h.pick(invalidRange)
 }
@@ -135,8 +145,33 @@ func (h *hist) randomOpen(c *client) {
 	if c.ver == 1 && h.chance(10) {
 		p.access |= nfsv4.OPEN4_SHARE_ACCESS_WANT_READ_DELEG
 	}
+	switch x := h.pick(100); {
+	case x < 3:
+		p.how = howUncheckedBadAttr + h.pick(3)
+		p.variant = "bad-create-mode"
+	case x < 6 && p.claim == claimNull:
+		p.name = []string{"", "a/b", ".", ".."}[h.pick(4)]
+		p.variant = "bad-name"
+	case x < 9 && c.ver == 0:
+		// Open-owner sequence ID out of order.
+		p.seqDelta = uint32(2 + h.pick(3))
+		p.variant = "bad-owner-seqid"
+	case x < 12 && c.ver == 0:
+		// Client ID that was never confirmed, or never issued.
+		id := h.rng.Uint64()
+		for _, r := range c.regs {
+			if r != c.cur {
+				id = r.clientID
+			}
+		}
+		p.clientID = &id
+		p.variant = "unconfirmed-or-unknown-clientid"
+	}
 	if p.claim == claimPrevious && h.chance(70) {
 		p.how = []int{howNoCreate, howUnchecked, howUncheckedTruncate}[h.pick(3)]
+	}
+	if c.ver == 1 && h.chance(15) && h.noFaultsArmed() {
+		p.then = 1 + h.pick(4)
 	}
 	os := h.open(c, p)
 	if os != nil && c.ver == 0 && !os.o.confirmed && h.chance(85) {
@@ -184,13 +219,26 @@ func (h *hist) randomStep() {
 		h.closeState(c, os.sid, fhLeaf(os.leaf), 0, h.validVariant(os))
 	case x < 39:
 		os := opens[h.pick(len(opens))]
-		h.downgrade(c, os.sid, fhLeaf(os.leaf), uint32(1+h.pick(3)), 0, 0, h.validVariant(os))
+		access, deny, variant := uint32(1+h.pick(3)), uint32(0), h.validVariant(os)
+		if variant == "valid" && h.chance(8) {
+			if h.chance(50) {
+				access, variant = []uint32{0, 4, 8}[h.pick(3)], "bad-share-access"
+			} else {
+				deny, variant = uint32(1+h.pick(3)), "share-deny"
+			}
+		}
+		h.downgrade(c, os.sid, fhLeaf(os.leaf), access, deny, 0, variant)
 	case x < 49:
 		os := opens[h.pick(len(opens))]
 		p := lockParams{newOwner: true, openSid: os.sid, loKey: c.lockOwnerKey(h.pick(2)), fh: fhLeaf(os.leaf), rangeIdx: h.pickRange(), write: h.chance(50), variant: h.validVariant(os)}
 		if c.ver == 0 && p.variant == "valid" && h.chance(6) {
 			p.lockSeqDelta = uint32(2 + h.pick(3))
 			p.variant = "bad-lock-owner-seqid"
+		} else if p.variant == "valid" && h.chance(3) {
+			p.badLockType = true
+			p.variant = "bad-lock-type"
+		} else if c.ver == 1 && !rangeIsInvalid(p.rangeIdx) && h.chance(15) {
+			p.thenUnlockCurrent = true
 		}
 		h.lock(c, p)
 	case x < 54 && len(locks) > 0:
@@ -202,6 +250,9 @@ func (h *hist) randomStep() {
 	case x < 64 && len(locks) > 0:
 		ls := locks[h.pick(len(locks))]
 		if c.ver == 0 {
+			if h.chance(8) {
+				h.staleClientID40(c, ls.lo.key)
+			}
 			h.releaseLockOwner(c, ls.lo.key, "valid")
 		} else {
 			h.freeStateID(c, ls.sid, "valid")
@@ -221,7 +272,7 @@ func (h *hist) randomStep() {
 		if ls := h.resolvableLeaves(); len(ls) > 0 && h.chance(90) {
 			fh = fhLeaf(ls[h.pick(len(ls))])
 		}
-		h.lockt(c, fh, c.lockOwnerKey(h.pick(3)), h.pickRange(), h.chance(50))
+		h.lockt(c, fh, c.lockOwnerKey(h.pick(3)), h.pickRange(), h.chance(50), h.chance(10))
 	case x < 92:
 		if ls := h.resolvableLeaves(); len(ls) > 0 {
 			l := ls[h.pick(len(ls))]
@@ -234,6 +285,10 @@ func (h *hist) randomStep() {
 			}
 		}
 	default:
+		if c.ver == 1 && h.chance(30) {
+			h.framing41(c)
+			return
+		}
 		h.hostile(c)
 	}
 }
@@ -250,6 +305,9 @@ func (h *hist) validVariant(os *openState) string {
 
 func (h *hist) randomIO(c *client, opens []*openState, locks []*lockState, gated bool) {
 	kind := h.pick(3)
+	if h.chance(8) {
+		kind = ioSetattrBadAttr + h.pick(2)
+	}
 	var sid nfsv4.Stateid4
 	var leaf *fakeLeaf
 	variant := "open-state-id"
@@ -280,16 +338,27 @@ func (h *hist) randomIO(c *client, opens []*openState, locks []*lockState, gated
 			variant = "bypass-state-id"
 		}
 	}
-	if gated && kind != ioSetattr && leaf.failIO.Load() == 0 && leaf.failOpen.Load() == 0 {
+	if gated && kind < ioSetattr && leaf.failIO.Load() == 0 && leaf.failOpen.Load() == 0 {
 		h.startGatedIO(c, kind, sid, leaf, variant)
 		return
 	}
-	h.io(c, kind, sid, fhLeaf(leaf), variant)
+	fh := fhLeaf(leaf)
+	if (variant == "anonymous-state-id" || variant == "bypass-state-id") && h.chance(8) {
+		// Special state ID without a regular file to apply it to.
+		fh = []fhRef{fhNone, fhRoot}[h.pick(2)]
+		variant += "-no-regular-file"
+	}
+	h.io(c, kind, sid, fh, variant)
 }
 
 // lifecycleStep changes who is registered, alive or expired.
 func (h *hist) lifecycleStep() {
 	c := h.clients[h.pick(len(h.clients))]
+	if c.ver == 1 && !c.vanished && c.cur != nil && c.liveSession() == nil && h.chance(70) {
+		// A client that destroyed its last session creates a new one.
+		h.confirm(c, c.cur, "another-session")
+		return
+	}
 	switch x := h.pick(100); {
 	case x < 25 && !c.vanished:
 		// Client restarts: new verifier.
@@ -362,7 +431,7 @@ func (h *hist) hostile(c *client) {
 	var seqDelta uint32
 	var mut string
 	for tries := 0; mut == "" && tries < 10; tries++ {
-		switch h.pick(13) {
+		switch h.pick(14) {
 		case 0:
 			if base.Seqid > 1 {
 				sid.Seqid--
@@ -449,6 +518,15 @@ func (h *hist) hostile(c *client) {
 				sid = currentStateID
 				mut = "current-state-id-without-one"
 			}
+		case 13:
+			// A well-formed special state ID where a regular one is
+			// required (for READ/WRITE/SETATTR it is simply valid).
+			if h.chance(50) {
+				sid = nfsv4.Stateid4{}
+			} else {
+				sid = nfsv4.Stateid4{Seqid: 0xffffffff, Other: [12]byte{0xff, 0xff, 0xff, 0xff, 0xff, 0xff, 0xff, 0xff, 0xff, 0xff, 0xff, 0xff}}
+			}
+			mut = "special-state-id"
 		}
 	}
 	if mut == "" {
